@@ -571,3 +571,14 @@ func genAffinity(r *rng, c genCfg) (*scenario, string) {
 	sc.Opts = shuf
 	return sc, extra
 }
+
+// genMalformed: a general scenario with one malformed element among the call options.
+func genMalformed(r *rng, c genCfg) *scenario {
+	sc := genScenario(r, c)
+	sc.Defaults = 0
+	kinds := []string{"nil", "convnil", "convnil", "convbad", "convbad", "genfail", "genfail", "genfail", "gennil", "gennil", "namednil"}
+	o := optSpecC{Kind: kinds[r.intn(len(kinds))], Name: "a"}
+	pos := r.intn(len(sc.Opts) + 1)
+	sc.Opts = append(sc.Opts[:pos], append([]optSpecC{o}, sc.Opts[pos:]...)...)
+	return sc
+}
